@@ -16,7 +16,8 @@ func memoryLines(blocks interval.Map[model.Addr]) []memLine {
 		lines = append(lines, block2Lines(b)...)
 	}
 
-	for i, j := 0, 0; i < len(lines); i, j = i+1, j+1 {
+	j := 0
+	for i := 0; i < len(lines); i, j = i+1, j+1 {
 		if j > 0 && lines[j-1].addr == lines[i].addr {
 			lines[j-1].ranges = append(lines[j-1].ranges, lines[i].ranges...)
 			j--
@@ -25,7 +26,8 @@ func memoryLines(blocks interval.Map[model.Addr]) []memLine {
 		}
 	}
 
-	return addEmptyLines(lines)
+	// Lines merged into their predecessors left unused tail of the array.
+	return addEmptyLines(lines[:j])
 }
 
 func addEmptyLines(lines []memLine) []memLine {
